@@ -386,7 +386,8 @@ func (i *insertExecutor) parsePkValuesFromStatement(insertStmt *ast.InsertStmt, 
 					for i := range row {
 						r := row[i]
 						rStr, ok := r.(string)
-						if i < pkIndex && ok && !strings.EqualFold(rStr, sqlPlaceholder) {
+						// every literal before the key counts, whatever its Go type
+						if i < pkIndex && !(ok && strings.EqualFold(rStr, sqlPlaceholder)) {
 							currentRowNotPlaceholderNumBeforePkIndex++
 						}
 					}
